@@ -70,6 +70,23 @@ CONDS = {
     "both": ("or", ("cmp", ("s", "f"), "=", ("lit", 1)), ("cmp", ("t", "v"), "=", ("lit", "b"))),
 }
 COND_IDS = ("src", "tgt", "both")
+# whole conditions of the form a OR b written without parentheses: WHEN MATCHED AND a OR b THEN ...
+_TB = ("cmp", ("t", "v"), "=", ("lit", "b"))
+CONDS["bor_t"] = ("bare_or", CONDS["src"], _TB)  # right operand looks at the target
+CONDS["bor_s"] = ("bare_or", _TB, CONDS["src"])  # right operand looks at the source
+CONDS["bor_n"] = ("bare_or", ("cmp", ("s", "f"), "=", ("lit", 0)), ("cmp", ("s", "k"), "=", ("lit", 2)))  # NOT MATCHED
+BARE_OR_LISTS = [
+    (("U", "bor_t", "src"),),
+    (("D", "bor_t"), ("I", None, "cols")),
+    (("I", None, "cols"), ("D", "bor_s")),
+    (("D", "bor_s"), ("I", None, "cols")),
+    (("U", "bor_s", "lit"), ("D", None), ("I", "src", "cols")),
+    (("U", "tgt", "lit"), ("D", "bor_s"), ("I", None, "cols")),
+    (("I", "bor_n", "cols"),),
+    (("U", None, "src"), ("I", "bor_n", "cols")),
+    (("I", "bor_n", "lit"), ("D", "src"), ("U", None, "src")),
+    (("D", "src"), ("I", "bor_n", "lit"), ("U", None, "src")),
+]
 SETS = {
     "src": (("v", ("s", "v")),),
     "lit": (("v", ("lit", "u")),),
@@ -207,7 +224,7 @@ SPELLINGS = {
 SPELLING_IDS = tuple(SPELLINGS)
 QUICK_SPELLINGS = (
     "plain", "lower", "set_qual", "alias_src", "alias_tgt", "alias_both_noas", "subq", "subq_filter", "db_q",
-    "db_q_tgt", "db_q_src",
+    "db_q_full", "db_q_tgt", "db_q_tgt_full", "db_q_src",
 )  # fmt: skip
 
 
@@ -223,20 +240,24 @@ def render(spec, spelling, tname="t"):
 # ---- input-shape predicates used by the classifier (functions of the case only) ---------------------------------------
 def shape_cause(spec, spelling):
     """Named input shapes outside what the implementation accepts. -> (class, stage) or None.
-    stage 'rejected': nothing of the statement is carried out; ('clause', i): clause i cannot be carried out."""
+    stage 'rejected': the statement is refused before anything is carried out; ('clause', i): clause i cannot be
+    carried out (the clauses before it can); 'either': refused, or given up at the first clause (nothing is demanded
+    about which, so such cases are not counted as members of the after-error helper class)."""
     tgt, _tq, src, _sq, kwid, _setq, _rev, _flt = SPELLINGS[spelling]
     has_delete = any(c[0] == "D" for c in spec)
     has_insert = any(c[0] == "I" for c in spec)
     src_is_table = not src.startswith("(")
     src_name = src.split(" ")[0]
-    if kwid != "upper" and has_delete:
-        return "kw=delete_not_uppercase", "rejected"
     if src_is_table and " " in src:
         return "name=source_table_alias", "rejected"
+    if src_is_table and "." in _sq:
+        return "name=source_columns_fully_qualified", "either"
     if src_is_table and "." in src_name:
         return "name=source_table_qualified", "rejected"
     if " " in tgt and has_insert:
         return "name=target_alias,clause=not_matched", "rejected"
+    if kwid != "upper" and has_delete:
+        return "kw=delete_not_uppercase", "rejected"
     # a source column that appears only inside a larger SET / VALUES expression (never bare in ON, SET or VALUES)
     ast = clauses_ast(spec)
     bare = set(M.refs(ON, "s"))
@@ -373,6 +394,14 @@ def enumerate_cases(tier):
                 cases.append(("plain", tk, sk, ((TEMPLATES[a], "plain"), (TEMPLATES[b], "subq"))))
                 if not quick:
                     cases.append(("plain", tk, sk, ((TEMPLATES[a], "subq_filter"), (TEMPLATES[b], "plain"))))
+    # H: whole conditions `a OR b` without parentheses
+    for tk, sk in contents:
+        for spec in BARE_OR_LISTS:
+            cases.append(("plain", tk, sk, ((spec, "plain"),)))
+    for sp in ("lower", "subq", "db_q_tgt"):
+        for tk, sk in SPELL_CONTENTS[:2]:
+            for spec in BARE_OR_LISTS:
+                cases.append(("plain", tk, sk, ((spec, sp),)))
     # de-duplicate, keep first occurrence (deterministic order)
     seen, out = set(), []
     for c in cases:
@@ -520,6 +549,39 @@ def _kinds_sig(spec):
     return "".join(c[0] for c in spec)
 
 
+def bare_or_leak(pre, eff_src, tcols, ast):
+    """Input-shape predicate for conditions written `a OR b` without parentheses. Reading `WHEN MATCHED AND a OR b` as
+    `(matched AND a) OR b` -- instead of `matched AND (a OR b)` -- makes the clause claim rows on which b alone is TRUE:
+    target rows that join nothing, source rows that join nothing (for a MATCHED clause), joined pairs (for a NOT
+    MATCHED clause). This only says WHERE the two readings differ, from the inputs and the reference assignment:
+    -> (counts_differ, rows_differ). The generated lists contain at most one such clause."""
+    idx = [i for i, c in enumerate(ast) if c[1] is not None and c[1][0] == "bare_or"]
+    if not idx:
+        return False, False
+    i = idx[0]
+    c = ast[i]
+    b = c[1][2]
+    tassign, sassign = M.assign(pre, eff_src, tcols, SCOLS, ON, ast)
+    counts = rows = False
+    if c[0] in ("update", "delete"):
+        for t, (j, _ci) in zip(pre, tassign):
+            if j is None and M.ev(b, t, None, tcols, SCOLS) is True:
+                counts = True  # an unjoined target row is claimed (and counted); nothing joins it, so no effect
+        for s_, ci in zip(eff_src, sassign):
+            if ci != "matched" and M.ev(b, None, s_, tcols, SCOLS) is True and not (ci is not None and ci < i):
+                counts = True  # an unjoined source row is claimed by the MATCHED clause ...
+                if ci is not None:
+                    rows = True  # ... instead of being inserted by the later NOT MATCHED clause
+    else:
+        for t, (j, ci) in zip(pre, tassign):
+            if j is not None and M.ev(b, None, eff_src[j], tcols, SCOLS) is True and not (ci is not None and ci < i):
+                counts = rows = True  # a joined pair is claimed by the NOT MATCHED clause: inserted again
+    return counts, rows
+
+
+BARE_OR_CLASS = "cond=top_level_OR_without_parentheses"
+
+
 def judge(scenario, tname, spec, spelling, srows, o):
     """-> (list of (clause, cls, detail), list of (clause, cls, failed) memberships, reference result)"""
     tcols = T3COLS if tname == "t3" else TCOLS
@@ -534,10 +596,11 @@ def judge(scenario, tname, spec, spelling, srows, o):
     got = o["got"]
     cause = shape_cause(spec, spelling)
     total = sum(ref["counts"].values())
+    leak_counts, leak_rows = bare_or_leak(pre, eff_src, tcols, ast)
 
     # which clause (statement order) cannot be carried out, if the statement must / is known to fail
     fail_clause = None
-    if cause and cause[1] != "rejected":
+    if cause and cause[1] not in ("rejected", "either"):
         fail_clause = cause[1][1]
     elif not cause and ref["error"]:
         fail_clause = M.first_failing_clause(pre, eff_src, tcols, SCOLS, ON, ast, not_null)
@@ -573,10 +636,14 @@ def judge(scenario, tname, spec, spelling, srows, o):
     if got[0] == "ok" and not expect_unchanged and scenario != "tx_commit":
         alt = M.merge_clausewise_rejoin(pre, eff_src, tcols, SCOLS, ON, ast)
         alt_rows = None if alt is None else _norm(alt)
-        if alt_rows != exp_rows:
+        if leak_rows:
+            memb.append(("C12.target_rows", BARE_OR_CLASS, o["post_t"] != exp_rows))
+        elif alt_rows != exp_rows and not leak_counts:
             memb.append(("C12.target_rows", "effect=clausewise_rejoin_on_key", o["post_t"] != exp_rows))
         if o["post_t"] != exp_rows:
-            if alt_rows is not None and alt_rows != exp_rows and o["post_t"] == alt_rows:
+            if leak_rows:
+                cls = BARE_OR_CLASS
+            elif alt_rows is not None and alt_rows != exp_rows and o["post_t"] == alt_rows:
                 cls = "effect=clausewise_rejoin_on_key"
             else:
                 cls = f"unexplained:spelling={spelling},clauses={_kinds_sig(spec)}"
@@ -600,10 +667,14 @@ def judge(scenario, tname, spec, spelling, srows, o):
             else:
                 expv = {M.KIND_COLUMN[k]: n for k, n in ref["counts"].items()}
                 bad = {c: row[c] for c in row if row[c] != expv[c] or type(row[c]) is not int}
-                if total == 0:
+                if leak_counts:
+                    memb.append(("C12.status_counts", BARE_OR_CLASS, bool(bad)))
+                elif total == 0:
                     memb.append(("C12.status_counts", "counts=null_when_no_row_qualifies", bool(bad)))
                 if bad:
-                    if total == 0 and all(v is None for v in row.values()):
+                    if leak_counts:
+                        cls = BARE_OR_CLASS
+                    elif total == 0 and all(v is None for v in row.values()):
                         cls = "counts=null_when_no_row_qualifies"
                     elif all(row[c] == expv[c] for c in row):
                         cls = "unexplained:type=" + ",".join(sorted({type(v).__name__ for v in bad.values()}))
@@ -619,6 +690,8 @@ def judge(scenario, tname, spec, spelling, srows, o):
     # -- C12.helper
     if got[0] == "ok":
         stage = "after=success" if scenario != "tx_rollback" else "after=rolled_back"
+    elif cause and cause[1] == "either":
+        stage = "after=error_in_a_clause(?)"
     else:
         stage = "after=error_in_a_clause" if fail_clause is not None else "after=rejected_statement"
     counted = stage in ("after=success", "after=error_in_a_clause")
@@ -634,7 +707,7 @@ def judge(scenario, tname, spec, spelling, srows, o):
     if counted:
         memb.append(("C12.helper", f"helper_left_in_session,{stage}", bool(seen)))
     if seen:
-        viol.append(("C12.helper", f"helper_left_in_session,{stage}", seen))
+        viol.append(("C12.helper", f"helper_left_in_session,{stage.replace('(?)', '')}", seen))
     if scenario == "usertable":
         shadowed = o["user_seen"] != ("ok", [tuple(r) for r in USER_MC])
         if counted:
@@ -692,7 +765,7 @@ def run(ctx: core.Ctx):
         "the plain spelling; + spellings x kind lists x 4 contents; + SET forms x INSERT forms x contents; + NOT NULL "
         "target (statement must fail as a whole); + follow-up observations of the session (helper table, user table of "
         "the same name); + MERGE inside BEGIN..ROLLBACK/COMMIT; + two merges in one session. quick = 16 contents, "
-        "rotating conditions, 11 spellings. non-trivial = (pre-state, source, clauses, spelling) for which the "
+        "rotating conditions, 13 spellings. non-trivial = (pre-state, source, clauses, spelling) for which the "
         "reference affects >= 1 row or demands an error"
     )
     ctx.assumptions = [
